@@ -72,26 +72,30 @@ type SessSpec struct {
 	CommitUnacked bool   `json:"commit_unacked,omitempty"`
 	Steps         []Step `json:"steps"`
 	// StartSteps run concurrently with Start(), before the client signalled readiness (ops: waithold, end, waitreopen, releasereq, sleep)
-	StartSteps       []Step              `json:"start_steps,omitempty"`
-	FailSaves        []int               `json:"fail_saves,omitempty"` // 1-based indices of mem-backend saves that are rejected
-	SlowSaveMs       int                 `json:"slow_save_ms,omitempty"`
-	Fragment         bool                `json:"fragment,omitempty"`
-	SlowConsUs       int                 `json:"slow_cons_us,omitempty"`
-	AutoReset        string              `json:"auto_reset,omitempty"`
-	Mode             string              `json:"mode,omitempty"`
-	ReadOnly         bool                `json:"read_only,omitempty"`
-	API              bool                `json:"api,omitempty"`
-	NoFinalClose     bool                `json:"no_final_close,omitempty"`
-	GroupName        string              `json:"group,omitempty"`
-	Rollbacks        map[int]uint64      `json:"rollbacks,omitempty"`   // vb -> R: the first stream request of vb is answered ROLLBACK(R)
-	RollbackAt       map[int]int         `json:"rollback_at,omitempty"` // vb -> which request (1-based) gets the ROLLBACK answer (default 1)
-	ReqFail          map[int][2]int      `json:"req_fail,omitempty"`    // vb -> (request index, status): that stream request is answered with an error status
-	ReqHold          map[int]int         `json:"req_hold,omitempty"`    // vb -> request index whose reply is held until a "releasereq" step
-	Failover         map[int][][2]uint64 `json:"failover,omitempty"`    // vb -> failover log (uuid, seq), newest first
-	CBFaults         []CBFault           `json:"cb_faults,omitempty"`   // faults on checkpoint xattr writes (couchbase back end)
-	Membership       string              `json:"membership,omitempty"`  // "" static 1/1 | dynamic (fed through PUT /membership/info)
-	FirstInfo        [2]int              `json:"first_info,omitempty"`  // member,total sent while starting (dynamic)
-	RebalanceDelayMs int                 `json:"rebalance_delay_ms,omitempty"`
+	StartSteps   []Step         `json:"start_steps,omitempty"`
+	FailSaves    []int          `json:"fail_saves,omitempty"` // 1-based indices of mem-backend saves that are rejected
+	SlowSaveMs   int            `json:"slow_save_ms,omitempty"`
+	Fragment     bool           `json:"fragment,omitempty"`
+	SlowConsUs   int            `json:"slow_cons_us,omitempty"`
+	AutoReset    string         `json:"auto_reset,omitempty"`
+	Mode         string         `json:"mode,omitempty"`
+	ReadOnly     bool           `json:"read_only,omitempty"`
+	API          bool           `json:"api,omitempty"`
+	NoFinalClose bool           `json:"no_final_close,omitempty"`
+	GroupName    string         `json:"group,omitempty"`
+	Rollbacks    map[int]uint64 `json:"rollbacks,omitempty"`     // vb -> R: the first stream request of vb is answered ROLLBACK(R)
+	RollbackAt   map[int]int    `json:"rollback_at,omitempty"`   // vb -> which request (1-based) gets the ROLLBACK answer (default 1)
+	RollbackAlso map[int]int    `json:"rollback_also,omitempty"` // vb -> a second request index that is answered ROLLBACK(R) as well
+	// FailoverOnLogFetch: vb -> n: right after the node answered the failover-log request that follows the vBucket's ROLLBACK
+	// answer, the vBucket gets a new branch (uuid 0xfa0000+n, starting at R): the stream opened next is on that branch
+	FailoverOnLogFetch map[int]int         `json:"failover_on_log_fetch,omitempty"`
+	ReqFail            map[int][2]int      `json:"req_fail,omitempty"`   // vb -> (request index, status): that stream request is answered with an error status
+	ReqHold            map[int]int         `json:"req_hold,omitempty"`   // vb -> request index whose reply is held until a "releasereq" step
+	Failover           map[int][][2]uint64 `json:"failover,omitempty"`   // vb -> failover log (uuid, seq), newest first
+	CBFaults           []CBFault           `json:"cb_faults,omitempty"`  // faults on checkpoint xattr writes (couchbase back end)
+	Membership         string              `json:"membership,omitempty"` // "" static 1/1 | dynamic (fed through PUT /membership/info)
+	FirstInfo          [2]int              `json:"first_info,omitempty"` // member,total sent while starting (dynamic)
+	RebalanceDelayMs   int                 `json:"rebalance_delay_ms,omitempty"`
 	// LogDelayMs: the goroutine writing a library log line that contains the key is held up for that many ms
 	// (a slow log sink / a pre-emption at that point of the library's execution)
 	LogDelayMs map[string]int `json:"log_delay_ms,omitempty"`
@@ -445,7 +449,24 @@ func RunSession(spec *SessSpec) *Trace {
 	if len(spec.Rollbacks) > 0 || len(spec.ReqFail) > 0 || len(spec.ReqHold) > 0 {
 		var rmu sync.Mutex
 		nreq := map[int]int{}
+		rolledBack := map[int]bool{}
+		branched := map[int]bool{}
 		env.Sim.Hook = func(r *cbsim.Req) *cbsim.Action {
+			if r.Op == cbsim.OpDcpFailoverLog {
+				rmu.Lock()
+				defer rmu.Unlock()
+				vb := int(r.VB)
+				if n, ok := spec.FailoverOnLogFetch[vb]; ok && rolledBack[vb] && !branched[vb] {
+					branched[vb] = true
+					R := spec.Rollbacks[vb]
+					return &cbsim.Action{After: func() {
+						old := env.Sim.FailoverCopy(uint16(vb))
+						env.Sim.SetFailover(uint16(vb), append([]cbsim.Failover{{UUID: 0xfa0000 + uint64(n), Seq: R}}, old...))
+						env.Log.Add(evlog.Rec{K: "ctl.branch-after-logfetch", VB: vb, A: 0xfa0000 + uint64(n), B: R})
+					}}
+				}
+				return nil
+			}
 			if r.Op != cbsim.OpDcpStreamReq {
 				return nil
 			}
@@ -464,9 +485,11 @@ func RunSession(spec *SessSpec) *Trace {
 			if at == 0 {
 				at = 1
 			}
-			if !ok || nreq[int(r.VB)] != at {
+			also, hasAlso := spec.RollbackAlso[int(r.VB)]
+			if !ok || (nreq[int(r.VB)] != at && !(hasAlso && nreq[int(r.VB)] == also)) {
 				return nil
 			}
+			rolledBack[int(r.VB)] = true
 			b := make([]byte, 8)
 			for i := 0; i < 8; i++ {
 				b[7-i] = byte(R >> (8 * uint(i)))
